@@ -21,13 +21,14 @@ FINISH = dict(
     rule='sources: geometry in {regular 5x6 / 2x2 / 9x4, regular crossline-sorted 4x7 / 6x3, irregular grids with 1..5 holes (corner, interior, staggered), 2-D with no numbering / single '
          'inline / single crossline} x format in {IEEE, IBM} x header content (constant / ramp / mixed backgrounds, extremes) x detection mode x '
          '(rate, blockshape) x route in {API, CLI}; non-trivial = distinct (geometry, format, background, mode, setting, route)',
-    assumptions=['the delay-recording-time is the same in every trace (it defines the sample axis and is regenerated)',
+    assumptions=['the delay-recording-time and the time scalar that scales it are the same in every trace (they define the sample axis; the delay word is regenerated)',
                  'IBM sources: exported samples within 2^-20 relative of the SGZ decode'],
     trusted=['segyio', 'numpy', 'zfpy', 'TLC'])
 
 GEOMS = {
     'reg5x6': ('reg', (5, 6), ()), 'reg2x2': ('reg', (2, 2), ()), 'reg9x4': ('reg', (9, 4), ()),
     'regx4x7': ('regx', (4, 7), ()), 'regx6x3': ('regx', (6, 3), ()),       # regular, stored crossline-sorted
+    'reg8x16': ('reg', (8, 16), ()), 'irr8x16': ('irr', (8, 16), ((7, 15), (3, 3))), '2d-128': ('2d0', (1, 128), ()),       # header arrays of exactly one 512-byte page
     'irr-corner': ('irr', (4, 5), ((0, 0),)), 'irr-last': ('irr', (3, 4), ((2, 3),)), 'irr-mid2': ('irr', (5, 5), ((1, 2), (3, 1))),
     'irr-stagger': ('irr', (6, 7), ((0, 3), (1, 1), (2, 5), (4, 0), (5, 6))), 'irr-rows': ('irr', (4, 6), ((0, 2), (1, 3), (2, 2), (3, 4))),
     '2d0': ('2d0', (1, 9), ()), '2dil': ('2dil', (1, 21), ()), '2dxl': ('2dxl', (7, 1), ()),
@@ -59,6 +60,8 @@ def source(case, d, tag, seed):
         else:
             h[189], h[193] = 100 + i, 7
         h[115], h[117], h[109], h[37] = nz, 4000, case['delay'], 3
+        if h[215] not in (0, 1):        # one time scalar for the whole file (it scales the delay word: a per-trace scalar would give every trace its own sample axis)
+            h[215] = 16
         h[1] = t + 1
         h[181], h[185] = (-2147483647 - 1 if t == 0 else 2147483647 - t), 32767 * (t % 2)
         h[29] = (-32768, 32767, 0)[t % 3]
